@@ -124,6 +124,7 @@ class Gen:
         L.append("Definition pred_ids : list string := [%s]." % "; ".join('"%s"' % p["id"] for dk in DOMAIN_KEYS for p in self.pred_by_domain[dk]))
         L.append("Definition ctor_reqs : list bexpr := Eval vm_compute in map role_req ctor_ids.")
         L.append("Definition op_reqs : list bexpr := Eval vm_compute in map op_req op_ids.")
+        L.append("Definition op_arg_reqs : list bexpr := Eval vm_compute in map op_arg_req op_ids.")
         en = self.tr["enums"]
         L.append("Definition gen_enums : list (string * list (string * N)) := [%s]." % "; ".join(
             '("%s", [%s])' % (k, "; ".join('("%s", %d)' % (n, v) for n, v in sorted(en[k].items()))) for k in sorted(en)))
@@ -302,8 +303,12 @@ def run(ctx):
         "map (fun k => env_list (Some (bsupp (role_req k)))) ctor_ids",
         "map (fun k => env_list (Some (bsupp (op_req k)))) op_ids",
         "map (fun k => match assoc k op_specs with Some _ => true | None => false end) op_ids",
-        "map decide_ctor_path gen_ctors", "map decide_op_path gen_ops"])
-    d_pred, d_ctor, d_op, enum_bad, missing, ss_pred, ss_ctor, ss_op, op_has_spec, path_ctor, path_op = [parse_coq(x) for x in dec]
+        "map decide_ctor_path gen_ctors", "map decide_op_path gen_ops",
+        "map decide_op_arg gen_ops", "map (fun k => env_list (Some (bsupp (op_arg_req k)))) op_ids",
+        "map (fun k => match assoc k op_arg_specs with Some _ => true | None => false end) op_ids",
+        "missing_ids op_arg_specs gen_ops"])
+    d_pred, d_ctor, d_op, enum_bad, missing, ss_pred, ss_ctor, ss_op, op_has_spec, path_ctor, path_op, \
+        d_oparg, ss_oparg, op_has_arg, missing_arg = [parse_coq(x) for x in dec]
     wpath = {p["id"]: pa for p, pa in zip(gen.ctors, path_ctor)}
     # bits to sweep = bits mentioned by the generated term (translator) UNION bits mentioned by the Spec
     def usupp(p, ss):
@@ -313,7 +318,7 @@ def run(ctx):
     s_ctor = [usupp(p, ss) for p, ss in zip(gen.ctors_all, ss_ctor)]
     s_op = [usupp(p, ss) for p, ss in zip(gen.ops_all, ss_op)]
     items = [("pred", p, d) for p, d in zip(gen.preds, d_pred)] + [("ctor", p, d) for p, d in zip(gen.ctors, d_ctor)] + \
-            [("op", p, d) for p, d in zip(gen.ops, d_op)]
+            [("op", p, d) for p, d in zip(gen.ops, d_op)] + [("oparg", p, d) for p, d in zip(gen.ops, d_oparg) if d[0] != 0]
     proved = [(k, p) for k, p, d in items if d[0] == 1]
     refuted = [(k, p, d) for k, p, d in items if d[0] == 2]
     nospec = [(k, p) for k, p, d in items if d[0] == 0]
@@ -334,6 +339,12 @@ def run(ctx):
                      '  (beval has_domain e = false -> r = RRaise EUnsupportedDomain /\\ sends = []) /\\\n'
                      '  (beval has_domain e = true -> beval (role_req "%s") e = false -> r = RRaise EUnsupportedCapability /\\ sends = []).\n'
                      'Proof. apply guard_sound_ctor. vm_compute. reflexivity. Qed.' % (n, p["coq_name"], p["id"]))
+        elif k == "oparg":
+            n = "op_arg_guard_" + p["coq_name"][3:]
+            L.append('Theorem %s : forall e path r sends, In (path, (r, sends)) (gpaths %s e) ->\n'
+                     '  path_consistent (op_arg_asm "%s") path = true -> beval (op_arg_req "%s") e = false ->\n'
+                     '  (r = RRaise EUnsupportedCapability \\/ r = RFalse) /\\ sends = [].\n'
+                     'Proof. apply guard_sound_op_arg. vm_compute. reflexivity. Qed.' % (n, p["coq_name"], p["id"], p["id"]))
         else:
             n = "op_guard_" + p["coq_name"][3:]
             L.append('Theorem %s : forall e r sends, In (r, sends) (grun %s e) -> beval (op_req "%s") e = false ->\n'
@@ -366,7 +377,7 @@ def run(ctx):
                 if m and m.group(1).strip().startswith("Closed under the global context"):
                     closed.append(n)
     # in scope: every predicate, every role constructor, every operation with an entry in Spec.v
-    n_items = len(tr["preds"]) + len(tr["ctors"]) + sum(1 for has in op_has_spec if has)
+    n_items = len(tr["preds"]) + len(tr["ctors"]) + sum(1 for has in op_has_spec if has) + sum(1 for has in op_has_arg if has)
     ctx.cov["obligations"] += n_items + 1        # one per translated item + the enum table
     ctx.cov["discharged"] += len(closed) + (0 if enum_bad else 1)
     ctx.cov["generated_theorems"] = {"proved_closed": len(closed), "items": n_items,
@@ -390,11 +401,13 @@ def run(ctx):
         for c in w.get("cases", []):
             c["why"] = "corpus:" + fn
             corpus.append(c)
-    wit_pred, wit_ctor, wit_op = [], [], []
+    wit_pred, wit_ctor, wit_op, wit_oparg = [], [], [], []
     for k, p, d in refuted:
         if len(d) >= 4:
             w = {"id": p["id"], "cmds": d[1], "caps": d[2] & 0xFFFFFF, "dom": bool(d[3] & 1) if k == "ctor" else True, "why": "model-witness"}
-            if k == "pred":
+            if k == "oparg":
+                wit_oparg.append(w)
+            elif k == "pred":
                 wit_pred.append(dict(w, dk=p["domain"]))
             elif k == "ctor":
                 # arguments of the violating path of the guard program
@@ -412,6 +425,21 @@ def run(ctx):
     oenvs = [e for e in oenvs if e["id"] not in nospec_ops]      # operations outside Spec.v: listed in the evidence, not run
     for e in oenvs:
         e["pre"] = []
+        e["variant"] = ""
+    # argument-dependent guards: the same operations called with a CONTROL PDU, over the bits of the
+    # operation's guard and of the argument guard (NoRawData flag), others all 0 / all 1
+    aenvs = []
+    ALL32_ = (1 << 32) - 1
+    for i, p in enumerate(gen.ops_all):
+        if not op_has_arg[i]:
+            continue
+        mc, mp = s_op[i][0] | ss_oparg[i][0], (s_op[i][1] | ss_oparg[i][1]) & 0xFFFFFF
+        cases_ = [(ac | (oc & ~mc), ap) for ac in submasks(mc) for ap in submasks(mp) for oc in (0, ALL32_)]
+        cases_ += [(w_["cmds"], w_["caps"]) for w_ in wit_oparg if w_["id"] == p["id"]]
+        cases_ += [(w_["cmds"] | (ALL32_ & ~mc), w_["caps"]) for w_ in wit_oparg if w_["id"] == p["id"]]
+        for cm, cp in dict.fromkeys(cases_):
+            aenvs.append({"i": i, "id": p["id"], "cmds": cm, "caps": cp, "dom": True, "kw": [], "pre": [], "variant": "ctrl",
+                          "seed": ctx.rng.randrange(1 << 30), "why": "control-pdu"})
     # sequences: every specified operation preceded by each other public operation of the same connector,
     # on the interface that advertises everything EXCEPT what the operation needs (so the preceding call
     # succeeds and may prime caches) -- the guard must still hold; thorough: also length 3 and "everything"
@@ -427,7 +455,7 @@ def run(ctx):
             seqs += [[m, m2] for m in prefixes for m2 in (p.get("state_reads") and prefixes or prefixes[:3]) if m2 != m][:120]
         for pre_ in seqs:
             for cm in ([ALL32 & ~mc] + ([ALL32] if ctx.thorough else [])):
-                oenvs.append({"i": i, "id": p["id"], "cmds": cm, "caps": 0, "dom": True, "kw": [], "pre": pre_,
+                oenvs.append({"i": i, "id": p["id"], "cmds": cm, "caps": 0, "dom": True, "kw": [], "pre": pre_, "variant": "",
                               "seed": ctx.rng.randrange(1 << 30), "why": "sequence"})
     dis = di_cases(ctx, [c for c in corpus if c.get("kind") == "di"])
     ctx.log("cases: %d predicate interfaces, %d constructor runs, %d operation runs, %d DeviceInfo" % (len(penvs), len(cenvs), len(oenvs), len(dis)))
@@ -442,8 +470,8 @@ def run(ctx):
         jobs.append(("preds", part, {"mode": "eval", "preds": [[e["dk"], e["cmds"], e["caps"], e["seed"]] for e in part]}))
     for part in chunk(cenvs, NP):
         jobs.append(("ctors", part, {"mode": "eval", "ctors": [[e["id"], e["cmds"], e["caps"], e["dom"], e["seed"], e["kw"]] for e in part]}))
-    for part in chunk(oenvs, NP):
-        jobs.append(("ops", part, {"mode": "eval", "ops": [[e["id"], e["cmds"], e["caps"], e["seed"], e["pre"]] for e in part]}))
+    for part in chunk(oenvs, NP) + [aenvs]:
+        jobs.append(("ops", part, {"mode": "eval", "ops": [[e["id"], e["cmds"], e["caps"], e["seed"], e["pre"], e["variant"]] for e in part]}))
     jobs.append(("di", dis, {"mode": "eval", "di": [[e["words"], e["adds"], e["domain"], e["cap"]] for e in dis]}))
     # device-originated events interleaved with operations, base connectors, phase A: everything advertised
     EVENTS = {"ble": ["@connected", "@disconnected", "@synchronized", "@desynchronized", "@triggered"],
@@ -484,6 +512,23 @@ def run(ctx):
         for cm, cp in ok_masks:
             for w in words:
                 senvs.append({"i": i, "id": p["id"], "cmds": cm | ss, "caps": cp, "seq": w, "seed": ctx.rng.randrange(1 << 30)})
+    # public entry points of the BLE role connectors that reach send_pdu(), called with a control PDU on an
+    # interface advertising NoRawData (+SendPDU): nothing may be transmitted (also after a connection event)
+    CTRL_ENTRY = {"ble.Central": ["send_pdu", "send_data_pdu", "send_ctrl_pdu"],
+                  "ble.Peripheral": ["send_pdu", "send_data_pdu", "send_ctrl_pdu"],
+                  "ble.Injector": ["send_pdu", "send_data_pdu", "send_ctrl_pdu"]}
+    ble_en = tr["enums"]["ble"]
+    for i, p in enumerate(gen.ctors_all):
+        if p["id"] not in CTRL_ENTRY:
+            continue
+        okm = sorted({(e["cmds"], e["caps"]) for e in cenvs if e["i"] == i and not e["kw"] and e["dom"] and "skip" not in e["obs"]
+                      and e["obs"]["r"] == "ok"}, key=lambda m: (bin(m[0]).count("1"), m))[:1]
+        for cm, cp in okm:
+            for send_bit in ("SendPDU", "SendRawPDU"):
+                for m in CTRL_ENTRY[p["id"]]:
+                    for w in ([m + "#ctrl"], ["@connected", m + "#ctrl"]):
+                        senvs.append({"i": i, "id": p["id"], "cmds": cm | (1 << ble_en[send_bit]), "caps": cp | 0x80, "seq": w,
+                                      "seed": ctx.rng.randrange(1 << 30), "ctrl_oracle": True})
     # phase B of the event sequences: for every command an event step was seen transmitting with everything
     # advertised, the same sequence on the interface that advertises everything BUT that command
     for e in evA:
@@ -523,6 +568,8 @@ def run(ctx):
     cterms = run_terms(cenvs)
     oenvs_run = [e for e in oenvs if "skip" not in e["obs"]]
     oterms = run_terms(oenvs_run)
+    aenvs_run = [e for e in aenvs if "skip" not in e["obs"]]
+    aterms = run_terms(aenvs_run)
     dterms = ["(%s, %s, %d, %d, (%s, %s, %s, %s))" % (
         clist(["%d" % w for w in e["words"]]), clist(["(%d, %d)" % (a, b) for a, b in e["adds"]]), e["domain"], e["cap"],
         cbool(e["obs"][0]), C.copt(e["obs"][1], lambda v: "%d" % v), C.copt(e["obs"][2], lambda v: "%d" % v), cbool(e["obs"][3])) for e in dis]
@@ -530,6 +577,7 @@ def run(ctx):
     groups = {"pred": ("env_case", pterms, "check_pred_env spec_pred_tables", "check_pred_env gen_pred_tables"),
               "ctor": ("run_case", cterms, "check_ctor_obs ctor_reqs", "check_run gen_ctor_table"),
               "op": ("run_case", oterms, "check_op_obs op_reqs", "check_run gen_op_table"),
+              "oparg": ("run_case", aterms, "check_op_obs op_arg_reqs", "check_run gen_op_table"),
               "di": ("di_case", dterms, "check_di", "check_di")}
     with cf.ThreadPoolExecutor(max_workers=len(groups)) as ex:
         futs = {k: ex.submit(C.run_cases, PID, k + "_both", pre, v[0], v[1], "(fun c => %s c && %s c)" % (v[2], v[3]), 700)
@@ -542,6 +590,7 @@ def run(ctx):
             bad[k + "_" + tag] = [both[k][j] for j in C.run_cases(PID, "%s_%s" % (k, tag), pre, v[0], sub, fn, 700)[0]] if sub else []
     bad_spec, bad_gen, bad_c_spec, bad_c_gen = bad["pred_oracle"], bad["pred_corr"], bad["ctor_oracle"], bad["ctor_corr"]
     bad_o_spec, bad_o_gen, bad_di = bad["op_oracle"], bad["op_corr"], bad["di_corr"]
+    bad_a_spec, bad_a_gen = bad["oparg_oracle"], bad["oparg_corr"]
     ctx.log("coq evaluation of %d cases done" % (len(pterms) + len(cterms) + len(oterms) + len(dterms)))
     if bad_spec:
         cand = sorted(bad_spec, key=lambda b: (bin(penvs[pidx[b]]["cmds"]).count("1") + bin(penvs[pidx[b]]["caps"]).count("1")))
@@ -560,7 +609,7 @@ def run(ctx):
                                            {"kind": "pred", "dk": e["dk"], "id": p["id"], "method": p["method"], "cmds": e["cmds"], "caps": e["caps"], "seed": e["seed"]},
                                            expected=w_, observed=g_)
     # constructors / operations
-    for kind, envs, bad in (("ctor", cenvs, bad_c_spec), ("op", oenvs_run, bad_o_spec)):
+    for kind, envs, bad in (("ctor", cenvs, bad_c_spec), ("op", oenvs_run, bad_o_spec), ("op", aenvs_run, bad_a_spec)):
         done = set()
         for b in sorted(bad, key=lambda b: (len(envs[b].get("pre", [])), bin(envs[b]["cmds"]).count("1") + bin(envs[b]["caps"]).count("1"))):
             e = envs[b]
@@ -573,7 +622,9 @@ def run(ctx):
                 what += " (constructor called with optional argument(s) %s)" % ", ".join(e["kw"])
             if e.get("pre"):
                 what += " (called on the same connector after %s)" % ", ".join(x + "()" for x in e["pre"])
-            nviol += ctx.violation(what, {"kind": kind, "id": e["id"], "cmds": e["cmds"], "caps": e["caps"], "dom": e["dom"], "seed": e["seed"], "kw": e.get("kw", []), "pre": e.get("pre", [])},
+            if e.get("variant") == "ctrl":
+                what += " (called with a PDU carrying a BTLE_CTRL layer; the interface advertises NoRawData: %s)" % bool(e["caps"] & 0x80)
+            nviol += ctx.violation(what, {"kind": kind, "id": e["id"], "cmds": e["cmds"], "caps": e["caps"], "dom": e["dom"], "seed": e["seed"], "kw": e.get("kw", []), "pre": e.get("pre", []), "variant": e.get("variant", "")},
                                    expected="UnsupportedDomain / UnsupportedCapability%s and no domain message" % (" or a failure report" if kind == "op" else ""),
                                    observed=e["obs"])
     # "no command outside the advertised mask is ever transmitted": role constructors and sequences of
@@ -594,6 +645,15 @@ def run(ctx):
         if e["id"] in o2_done:
             continue
         for k, st in enumerate(e["obs"]["steps"]):
+            if e.get("ctrl_oracle"):
+                if e["seq"][k].endswith("#ctrl") and st.get("sent"):
+                    o2_done.add(e["id"])
+                    nviol += ctx.violation("%s.%s called with a PDU carrying a BTLE_CTRL layer transmitted %s to an interface advertising NoRawData"
+                                           % (e["id"], e["seq"][k].split("#")[0], st["sent"]),
+                                           {"kind": "seq", "id": e["id"], "cmds": e["cmds"], "caps": e["caps"], "seed": e["seed"], "seq": e["seq"][:k + 1]},
+                                           expected="UnsupportedCapability / failure and no domain message", observed=e["obs"]["steps"][:k + 1])
+                    break
+                continue
             if e.get("events_only") and not e["seq"][k].startswith("@"):
                 continue        # base connectors: their unguarded operations (start, stop ...) are not subject to this oracle
             bad_ = outside(e["cmds"], st)
@@ -661,6 +721,8 @@ def run(ctx):
         "operation_runs": len(oenvs), "operation_results": op_res,
         "operation_runs_after_another_operation": sum(1 for e in oenvs if e.get("pre")),
         "role_connector_sequences": len(senvs),
+        "operation_runs_with_control_pdu": len(aenvs),
+        "role_entry_point_runs_with_control_pdu": sum(1 for e in senvs if e.get("ctrl_oracle")),
         "event_sequences_everything_advertised": len(evA),
         "event_sequences_one_command_withdrawn": sum(1 for e in senvs if e.get("events_only")),
         "event_steps_that_transmitted": sorted({"%s after %s: %s" % (e["seq"][k], e["seq"][:k], st["sent"]) for e in evA
@@ -716,7 +778,11 @@ def run(ctx):
     if not thms_ok:
         broken("generated theorems: %d of %d closed" % (len(closed), len(names)), out[-3000:])
     untranslated_pred = any(sec == "preds" for sec, _i, _e in gen.errors)   # then the predicate table holds a placeholder
-    for name, bad, envs, idx in (("predicates", [] if untranslated_pred else bad_gen, penvs, pidx), ("constructors", bad_c_gen, cenvs, None), ("operations", bad_o_gen, oenvs_run, None)):
+    for m in missing_arg:
+        if m not in failed_ids:
+            broken("operation %s of Spec.v (argument-dependent guard) no longer exists in the code" % m, "missing id")
+    for name, bad, envs, idx in (("predicates", [] if untranslated_pred else bad_gen, penvs, pidx), ("constructors", bad_c_gen, cenvs, None), ("operations", bad_o_gen, oenvs_run, None),
+                                 ("operations (control-PDU arguments)", bad_a_gen, aenvs_run, None)):
         if bad:
             e = envs[idx[bad[0]] if idx else bad[0]]
             broken("translator validation: generated %s disagree with the implementation on %d cases" % (name, len(bad)),
@@ -742,7 +808,7 @@ def replay(payload):
         r = C.run_impl("C06.py", {"mode": "eval", "ctors": [[case["id"], case["cmds"], case["caps"], case.get("dom", True), case.get("seed", 1), case.get("kw", [])]]})
         print("implementation now:", r["ctors"][0], "| expected:", payload.get("expected"))
     elif k == "op":
-        r = C.run_impl("C06.py", {"mode": "eval", "ops": [[case["id"], case["cmds"], case["caps"], case.get("seed", 1), case.get("pre", [])]]})
+        r = C.run_impl("C06.py", {"mode": "eval", "ops": [[case["id"], case["cmds"], case["caps"], case.get("seed", 1), case.get("pre", []), case.get("variant", "")]]})
         print("implementation now:", r["ops"][0], "| expected:", payload.get("expected"))
     elif k == "seq":
         r = C.run_impl("C06.py", {"mode": "eval", "seqs": [[case["id"], case["cmds"], case["caps"], case.get("seed", 1), case["seq"]]]})
